@@ -118,6 +118,8 @@ def big_items(rng):
     body = mt_record(rng) + b''.join(avp_rec(7, rbytes(rng, rng.randrange(900, 1018))) for _ in range(40))
     out.append(('big_msg', ctrl_bytes(body)))
     out.append(('big_data', data_bytes(rbytes(rng, 40000), True, True, False, True)))
+    out.append(('big_data_nolen', data_bytes(rbytes(rng, 70000), False, True, True, False, None, 2, b'\x00\x00')))
+    out.append(('big_data_65535', data_bytes(rbytes(rng, 65535 - 10), True, True, False, False)))
     return out
 
 
